@@ -341,7 +341,7 @@ def handleMD (a : List String) : String :=
   | _ => "bad-op"
 
 /-! ### koalabear/vortex: sponge and compression built on the permutation
-`C14 vx comp <keys16> <a0,…,a7>:<b0,…,b7> …`   `C14 vx hash <keys24> <x0,…> …` -/
+`C14 vx comp <keys16> <a0,…,a7>:<b0,…,b7> …`   `C14 vx hash <keys24> <x0,…> …`   `C14 vx hash16 <keys24> <row0;…;row15> …` -/
 
 /-- `CompressPoseidon2`: first 8 entries of `Permutation(a ‖ b)` (width 16) -/
 def vxCompress (C : CInst) (a b : List Nat) : List Nat := (permute (natOps C.q) C.inst (a ++ b)).take 8
@@ -372,6 +372,15 @@ def handleVx (a : List String) : String :=
     match mkInst "koalabear" 24 6 21 (parseKeys keys) with
     | none => "bad-inst"
     | some C => " ".intercalate (rest.map fun tok => showList (vxHash C (MiMC.parseList tok)))
+  | "hash16" :: keys :: rest =>
+    -- `HashPoseidon2x16(rows, leaves, n)`: leaf j = `HashPoseidon2(row j)`; `leaves` is an output parameter (the harness
+    -- hands over leaves holding garbage)
+    match mkInst "koalabear" 24 6 21 (parseKeys keys) with
+    | none => "bad-inst"
+    | some C => " ".intercalate (rest.map fun tok =>
+      let rows := (tok.splitOn ";").map MiMC.parseList
+      if rows.length != 16 || rows.any (fun r => r.length != (rows.headD []).length || r.length % 16 != 0) then "bad-op"
+      else ";".intercalate (rows.map fun r => showList (vxHash C r)))
   | _ => "bad-op"
 
 end GV.Poseidon2
